@@ -4,8 +4,10 @@ open MtxVerif MtxVerif.C43
 /-!
 ops (byte strings hex, `-` = empty):
 
-  reset <cdnSecret>
-  create <urldir> <dir> <known> <host> <clientip> <q|c|n> <nhdr> <hdr>*n <auth>
+  reset <cdnSecret> <trusted proxies, comma separated>
+  create <urldir> <dir> <known> <host> <clientip> <q|c|n> <nhdr> <hdr>*n <auth> <xff>
+      (`clientip` = the client IP the server is configured to believe: oracle column computed from the peer
+       address, X-Forwarded-For and the trusted proxies, independently of the hls package)
       answer `<ok|denied|notfound|redirect> new=<k|-> n=<sessions> cdn=<cdn sessions>`
   probe <kind> <urldir> <dir> <host> <clientip> <cookie designator> <query designator> <nhdr> <hdr>*n <xff>
       answer `<served|denied> ck=<none|bad|unk|k> qk=<bad|unk|k> n=… cdn=…`
@@ -41,7 +43,7 @@ def stepCreate (d : D) (args : List String) (impl : String) : D × DrvOut :=
   match args with
   | _urldir :: dir :: known :: _host :: cip :: cc :: rest =>
     match Hex.decode dir, bit known, Hex.decode cip, parseHdrs rest with
-    | some dir, some known, some cip, some (hdrs, [auth]) =>
+    | some dir, some known, some cip, some (hdrs, [auth, _xff]) =>
       match bit auth, (if cc == "q" then some CC.query else if cc == "c" then some CC.cookie
           else if cc == "n" then some CC.none else none) with
       | some auth, some cc =>
@@ -96,7 +98,7 @@ def stepProbe (d : D) (args : List String) (impl : String) : D × DrvOut :=
 
 def step (d : D) (op impl : String) : D × DrvOut :=
   match words op with
-  | ["reset", sec] =>
+  | ["reset", sec, _trusted] =>
     match Hex.decode sec with
     | some sec => ({ st := init sec, led := [] }, { model := "ok" })
     | none => (d, { model := "bad-op" })
